@@ -151,13 +151,26 @@ func run(p *propDef, tier, repo, verif string, seed int, explainKey string, noEv
 		archs = []string{"", "386", "arm64"}
 	}
 	var c *Ctx
+	var ruleErrors []string
 	var allObs []Ob
 	seenKey := map[string]bool{}
 	var perArch []string
 	for _, a := range archs {
 		cc := load(repo, a, tier)
 		for _, r := range p.rules {
-			r(cc)
+			// a rule that cannot be decided (missing anchor, inadmissible shape) must not hide what other rules found
+			func() {
+				defer func() {
+					if rec := recover(); rec != nil {
+						if ce, ok := rec.(checkerError); ok {
+							ruleErrors = append(ruleErrors, ce.msg)
+							return
+						}
+						panic(rec)
+					}
+				}()
+				r(cc)
+			}()
 		}
 		n := 0
 		for _, o := range cc.obs {
@@ -191,7 +204,7 @@ func run(p *propDef, tier, repo, verif string, seed int, explainKey string, noEv
 			}
 		}
 	}
-	if len(allObs) == 0 {
+	if len(allObs) == 0 && len(ruleErrors) == 0 {
 		fatalf("property %s produced zero obligations", p.id)
 	}
 	// duplicate keys inside one load are a checker bug (keys must identify constructs)
@@ -281,8 +294,14 @@ func run(p *propDef, tier, repo, verif string, seed int, explainKey string, noEv
 			fmt.Printf("NOTE: obligation %s no longer exists in the current tree\n", explainKey)
 		}
 	}
+	for _, e := range uniq(ruleErrors) {
+		fmt.Printf("CHECKER-ERROR property=%s %s\n", p.id, e)
+	}
 	if violations > 0 {
 		return 1
+	}
+	if len(ruleErrors) > 0 {
+		return 2
 	}
 	return 0
 }
